@@ -542,6 +542,25 @@ pub fn c11(cx: &mut Ctx) {
             }
         }
     }
+    // (7) refused while every other close condition holds too (HTTP/1.0, Connection: close both ways, no length):
+    // the flow that results is usable to completion
+    for hd in ["HTTP/1.1 403 No\r\nConnection: close\r\n\r\n", "HTTP/1.0 417 E\r\nconnection: close\r\nX: y\r\n\r\n"] {
+        for reqv in ["HTTP/1.0", "HTTP/1.1"] {
+            cx.case("allclose");
+            cx.rec.new_flow(&format!("POST {} http://a.test/p {}", reqv, super::hdrs(&[("connection", b"close"), ("expect", b"100-continue"), ("content-length", b"2")])));
+            cx.op("proceed"); cx.op("write 4096"); cx.op("proceed");
+            let mut stream = hd.as_bytes().to_vec();
+            stream.extend_from_slice(b"the body until close");
+            let mut soff = 0;
+            if cx.rec.state() == "await100" {
+                let res = cx.op(&format!("read100 {}", hx(&stream)));
+                if let Some(n) = res.strip_prefix("count ") { soff = n.parse().unwrap_or(0); }
+                cx.op("keep100");
+                cx.op("proceed");
+            }
+            finish_exchange(cx, &stream, soff, 2);
+        }
+    }
     // (6) Expect is list-valued: 100-continue among several Expect lines, in any position
     for hs in [vec![("expect", &b"x-quota=strict"[..]), ("expect", &b"100-continue"[..])],
                vec![("expect", &b"100-continue"[..]), ("expect", &b"x-quota=strict"[..])],
